@@ -305,12 +305,25 @@ def h_default_membership(eng):
 
 def h_sys_attr(eng):
     """attribute access through a system resolves that system's variant of a unit name first"""
-    lines = ["m = [length]", "pt = 2 * m", "US_pt = 3 * m", "UK_pt = 5 * m", "@system US", "    m", "@end", "@system UK", "    m", "@end"]
+    lines = ["m = [length]", "kk- = 1000 = K-", "pt = 2 * m = pint_ = pnt", "US_pt = 3 * m = US_pint_ = US_pnt", "UK_pt = 5 * m = UKp_ = UK_pnt", "@system US", "    m", "@end", "@system UK", "    m", "@end"]
     ureg = pint.UnitRegistry(lines, non_int_type=eng.ntype)
+    x = eng.real("x")
     eng.prove(str(ureg.sys.US.pt) == "US_pt", "sys.US.pt")
     eng.prove(str(ureg.sys.UK.pt) == "UK_pt", "sys.UK.pt")
     eng.prove(str(ureg.sys.US.m) == "m", "sys.US.m-falls-back")
     eng.prove(sorted(dir(ureg.sys)) == ["UK", "US"], "sys-lists-systems")
+    # every spelling that the registry resolves for '<system>_<name>' reaches the variant: alias,
+    # symbol, plural and prefixed forms (the registry parses the composed string)
+    for sysname, scale, canon in (("US", 3, "US_pt"), ("UK", 5, "UK_pt")):
+        sy = getattr(ureg.sys, sysname)
+        eng.prove(str(sy.pnt) == canon, f"sys.{sysname}.alias")
+        eng.prove(str(sy.pts) == canon, f"sys.{sysname}.plural")
+        eng.prove(str(sy.pnts) == canon, f"sys.{sysname}.alias-plural")
+        eng.prove(Eq((x * sy.pnt).to("m").magnitude, x * scale), f"sys.{sysname}.alias-value")
+    eng.prove(str(ureg.sys.US.pint_) == "US_pt", "sys.US.symbol")
+    # a name without a variant in that system falls back to the plain unit, whatever its spelling
+    eng.prove(str(ureg.sys.UK.pint_) == "pt", "sys.UK.symbol-falls-back")
+    eng.prove(str(ureg.sys.US.kkm) == "kkm" and Eq((x * ureg.sys.US.Km).to("m").magnitude, 1000 * x), "sys.US.prefixed-falls-back")
 
 
 MIN_DISCHARGED = {"H14.a": 1500, "H14.b": 20, "H14.c": 3000}
@@ -336,5 +349,5 @@ def cases(tier, seed):
         for pre in ("all", "G0", "S", "compat") + (("G1", "none") if big else ()):
             out.append(Case("H14.c", f"{e[0]}:{e[1]}:{e[2]}:pre={pre}", M, "h_membership", {"edit": list(e), "pre": pre}, opts={"max_paths": 5000}, validate=2 if pre == "all" else 0, weight=40.0))
     out.append(Case("H14.c-default", "members", M, "h_default_membership", {}, kind="conc"))
-    out.append(Case("H14.d", "sys-attr", M, "h_sys_attr", {}, kind="conc"))
+    out.append(Case("H14.d", "sys-attr", M, "h_sys_attr", {}, validate=1))
     return out
